@@ -1,2 +1,7 @@
 -- root of the library: every property module (and through them models, specs, proofs)
+import GoblVerif.Props.C01
+import GoblVerif.Props.C02
+import GoblVerif.Props.C03
+import GoblVerif.Props.C04
 import GoblVerif.Props.C05
+import GoblVerif.Props.C17
